@@ -86,7 +86,7 @@ def gen_blob(r: random.Random, big=False):
         return None
     if c < 0.35:
         return b""
-    n = r.choice([1, 2, 5, 63, 64, 127, 128]) if not big else r.choice([8191, 8192, 65536])
+    n = r.choice([1, 2, 5, 63, 64, 127, 128]) if not big else r.choice([1023, 4096])
     return bytes(r.getrandbits(8) for _ in range(n))
 
 
